@@ -134,7 +134,13 @@ class ExpandedTraceback:
         self.hide_filenames = hide_filenames
         self.show_filenames = show_filenames
         last_frame = traceback.extract_tb(exc_info[2])[-1]
-        self.line_number = last_frame[1] + line_offsets.get(last_frame[0], 0)
+        filename, line_number = last_frame[0], last_frame[1]
+        if (isinstance(exception, SyntaxError) and exception.lineno is not None
+                and exception.filename in student_files):
+            # The student's file did not compile: the relevant line is the one
+            # the parser reports, not the frame that called compile().
+            filename, line_number = exception.filename, exception.lineno
+        self.line_number = line_number + line_offsets.get(filename, 0)
         self.original_code_lines = original_code_lines
         self.student_files = student_files
 
